@@ -85,10 +85,26 @@ def run_case(case):
         if stp.get("host_opt"):
             kw["host"] = stp["host_opt"]  # overrides the Host header only; cookies follow the host actually connected to
         with net.installed():
-            try:
-                ws = websocket.WebSocket()
-                ws.connect(f"ws://{hops[0]['host']}{(':%d' % stp['port']) if stp.get('port') else ''}/c", **kw)  # the port plays no part in cookie matching
-            except Exception as e:
+            box = {}
+
+            def do_connect():
+                try:
+                    ws = websocket.WebSocket()
+                    ws.connect(f"ws://{hops[0]['host']}{(':%d' % stp['port']) if stp.get('port') else ''}/c", **kw)  # the port plays no part in cookie matching
+                except Exception as e:  # noqa: BLE001 - judged below
+                    box["exc"] = e
+
+            if stp.get("thread"):
+                # this connection is made by a worker thread of the application: the cookies belong to the process, not to a thread
+                import threading
+
+                th = threading.Thread(target=do_connect)
+                th.start()
+                th.join()
+            else:
+                do_connect()
+            if "exc" in box:
+                e = box["exc"]
                 obs.fail(exc_bucket("history|connect-raised", e), f"step {i}: {type(e).__name__}: {e}")
                 break
         if len(peers) != len(hops):
@@ -161,7 +177,7 @@ def run_case(case):
             break
     nt = setters >= 2 and (lookalike_used or mixed or overwritten)
     obs.cls = (f"steps:{min(len(steps), 12)}", f"setters:{min(setters, 4)}", f"lookalike:{int(lookalike_used)}", f"mixedcase:{int(mixed)}",
-               f"overwrite:{int(overwritten)}", f"dontcare_steps:{min(dontcare, 3)}", f"cookie_set_by_redirect:{int(redirected_setter)}")
+               f"overwrite:{int(overwritten)}", f"dontcare_steps:{min(dontcare, 3)}", f"cookie_set_by_redirect:{int(redirected_setter)}", f"threads:{min(sum(1 for s_ in steps if s_.get('thread')), 3)}")
     obs.nt = repr(steps) if nt else None
     return obs
 
@@ -177,6 +193,7 @@ step = st.fixed_dictionaries(
         "port": st.sampled_from([8080, 443, 8443, 81]),
         "field": st.sampled_from(["Set-Cookie", "set-cookie", "SET-COOKIE", "Set-cookie"]),
         "host_opt": st.sampled_from(["example.com", "sub.example.com", "other.test", "evil.test"]),
+        "thread": st.just(True),
         # the connection first goes to another host, which answers with a redirect (a handshake response, too) that may set cookies
         "via": st.fixed_dictionaries({"host": st.sampled_from(HOSTS), "status": st.sampled_from([301, 302, 303, 307, 308])},
                                      optional={"set": st.lists(st.tuples(st.sampled_from(NAMES), st.text(alphabet="abc123XYZ", min_size=1, max_size=4)), min_size=1, max_size=2, unique_by=lambda t: t[0]).map(lambda l: [list(t) for t in l]),
